@@ -46,10 +46,9 @@ int sqfs_meta_writer_append(sqfs_meta_writer_t *m, const void *data, size_t size
 		return SQFS_ERROR_IO;
 	}
 	VERIF_ASSERT(size <= CAP - g_cap_wr, "C01.env.meta_append.capture_capacity");
-	for (i = 0; i < CAP; ++i) {
-		if (i < size)
-			g_cap[g_cap_wr + i] = s[i];
-	}
+	(void)i; (void)s;
+	if (size > 0)
+		(memcpy)(g_cap + g_cap_wr, data, size);
 	g_cap_wr += size;
 	return 0;
 }
@@ -75,10 +74,9 @@ int sqfs_meta_reader_read(sqfs_meta_reader_t *m, void *data, size_t size)
 		g_cap_underrun = true;
 		return SQFS_ERROR_OUT_OF_BOUNDS;
 	}
-	for (i = 0; i < CAP; ++i) {
-		if (i < size)
-			d[i] = g_cap[g_cap_rd + i];
-	}
+	(void)i; (void)d;
+	if (size > 0)
+		(memcpy)(data, g_cap + g_cap_rd, size);
 	g_cap_rd += size;
 	return 0;
 }
